@@ -56,9 +56,9 @@ pub(crate) struct Model {
 
 fn main() {
     let args: Vec<String> = std::env::args().collect();
-    let models = scheduler::models::all();
     match args.get(1).map(|s| s.as_str()) {
         Some("list") => {
+            let models = scheduler::models::all();
             for m in &models {
                 println!("{}\t{}\t{}\t{}", m.property, m.id, m.threads, m.describe);
             }
@@ -75,7 +75,7 @@ fn main() {
                 .position(|a| a == "--max-seconds")
                 .and_then(|i| args.get(i + 1))
                 .and_then(|s| s.parse().ok());
-            let Some(m) = models.into_iter().find(|m| &m.id == id) else {
+            let Some(m) = scheduler::models::find(id) else {
                 eprintln!("no such model {id}");
                 std::process::exit(2);
             };
@@ -153,9 +153,20 @@ fn main() {
             }
             let out = cmd.output().expect("run");
             let line = String::from_utf8_lossy(&out.stdout);
-            let r: serde_json::Value = serde_json::from_str(line.trim()).unwrap_or(serde_json::json!({"ok": true}));
+            let r: serde_json::Value = line
+                .lines()
+                .filter_map(|l| serde_json::from_str(l.trim()).ok())
+                .last()
+                .unwrap_or(serde_json::json!({"ok": true}));
             if r["ok"] == false {
                 println!("REPRODUCED key=loom-failure detail={}", r["failure"].as_str().unwrap_or("").replace('\n', " "));
+                std::process::exit(1);
+            }
+            // a failing exploration can abort the process while unwinding (no result line): the
+            // first panic was recorded on stderr by the hook
+            let err = String::from_utf8_lossy(&out.stderr);
+            if let Some(l) = err.lines().find(|l| l.starts_with("LOOM-FAILURE:")) {
+                println!("REPRODUCED key=loom-failure detail={}", l["LOOM-FAILURE:".len()..].trim());
                 std::process::exit(1);
             }
             println!("NOT-REPRODUCED");
